@@ -26,6 +26,7 @@ type Solver struct {
 	TimeoutM int
 	Log      io.Writer
 	dead     bool
+	pushed   bool
 }
 
 func NewSolver(kind string, timeoutMs int) *Solver {
@@ -153,6 +154,13 @@ type Model map[string]*big.Int
 // Check decides satisfiability of the conjunction.  Result: "sat", "unsat",
 // "unknown" or "error".
 func (s *Solver) Check(asserts []*Term, wantModel bool) (string, Model) {
+	return s.CheckMode(asserts, wantModel, true)
+}
+
+// CheckMode: fresh=true resets the solver first (z3 then uses its one-shot
+// tactic pipeline, better on hard queries); fresh=false uses push/pop on the
+// persistent context (much cheaper for the thousands of tiny queries).
+func (s *Solver) CheckMode(asserts []*Term, wantModel bool, fresh bool) (string, Model) {
 	t0 := time.Now()
 	defer func() { s.Time += time.Since(t0); s.Queries++ }()
 	if s.cmd == nil || s.dead {
@@ -163,15 +171,31 @@ func (s *Solver) Check(asserts []*Term, wantModel bool) (string, Model) {
 	}
 	vars := Vars(asserts...)
 	var sb strings.Builder
-	// independent queries: (reset) keeps z3 on its one-shot tactic pipeline
-	// (push/pop would switch it to the slower incremental core)
-	if strings.HasPrefix(s.Name, "cvc5") {
-		sb.WriteString("(reset)\n(set-logic ALL)\n")
+	if fresh || strings.HasPrefix(s.Name, "cvc5") {
+		if strings.HasPrefix(s.Name, "cvc5") {
+			sb.WriteString("(reset)\n(set-logic ALL)\n")
+		} else {
+			fmt.Fprintf(&sb, "(reset)\n(set-option :produce-models true)\n(set-option :timeout %d)\n", s.TimeoutM)
+		}
+		s.declared = map[string]Sort{}
+		s.pushed = false
+		for _, v := range vars {
+			fmt.Fprintf(&sb, "(declare-const %s %s)\n", v.Name, v.S.SMT())
+		}
 	} else {
-		fmt.Fprintf(&sb, "(reset)\n(set-option :produce-models true)\n(set-option :timeout %d)\n", s.TimeoutM)
-	}
-	for _, v := range vars {
-		fmt.Fprintf(&sb, "(declare-const %s %s)\n", v.Name, v.S.SMT())
+		fmt.Fprintf(&sb, "(set-option :timeout %d)\n", s.TimeoutM)
+		for _, v := range vars {
+			if old, ok := s.declared[v.Name]; ok {
+				if old != v.S {
+					panic("variable redeclared with another sort: " + v.Name)
+				}
+				continue
+			}
+			s.declared[v.Name] = v.S
+			fmt.Fprintf(&sb, "(declare-const %s %s)\n", v.Name, v.S.SMT())
+		}
+		sb.WriteString("(push 1)\n")
+		s.pushed = true
 	}
 	for _, a := range asserts {
 		fmt.Fprintf(&sb, "(assert %s)\n", a.SMT())
@@ -207,6 +231,10 @@ func (s *Solver) Check(asserts []*Term, wantModel bool) (string, Model) {
 			fmt.Fprintf(s.Log, "; solver said: %s\n", res)
 		}
 		res = "error"
+	}
+	if s.pushed && !s.dead {
+		s.send("(pop 1)\n")
+		s.pushed = false
 	}
 	if res == "error" {
 		// resynchronise by restarting the process
